@@ -3,6 +3,7 @@ package main
 import (
 	"encoding/json"
 	"fmt"
+	"sort"
 	"go/constant"
 	"go/types"
 	"math"
@@ -445,6 +446,11 @@ func init() {
 	intrinsics["encoding/json.Marshal"] = func(in *Interp, fr *frame, a []Value) Value {
 		h, ok := in.soyToHost(a[0])
 		if !ok {
+			// symbolic strings/bools inside Soy values: encoded through the validated model of
+			// json's string encoding; object keys are concrete and sorted as encoding/json does
+			if out, ok := in.jsonEncode(fr, a[0]); ok {
+				return Tuple{out, Iface{}}
+			}
 			in.unsupported("encoding/json.Marshal of a symbolic or engine-foreign value")
 		}
 		b, err := json.Marshal(h)
@@ -934,6 +940,98 @@ func (in *Interp) soyToHost(v Value) (interface{}, bool) {
 	case Struct:
 		if len(x) == 0 {
 			return nil, true // data.Null{} / data.Undefined{}
+		}
+	}
+	return nil, false
+}
+
+
+func (in *Interp) jsonEncode(fr *frame, v Value) ([]Value, bool) {
+	lit := func(s string) []Value { return append([]Value{}, strBytes(s)...) }
+	switch x := v.(type) {
+	case Iface:
+		if x.T == nil {
+			return lit("null"), true
+		}
+		switch typeName(x.T) {
+		case "data.Null", "data.Undefined":
+			return lit("null"), true
+		}
+		return in.jsonEncode(fr, x.V)
+	case string, *SymStr:
+		r := in.call(fr, in.modelFunc("verifModel_json_quote"), []Value{x})
+		return append([]Value{}, strBytes(r)...), true
+	case bool:
+		if x {
+			return lit("true"), true
+		}
+		return lit("false"), true
+	case *Term:
+		if x.S.K == SBool {
+			if in.branch(x) {
+				return lit("true"), true
+			}
+			return lit("false"), true
+		}
+		c := in.concretize(x, "json number")
+		return lit(fmt.Sprint(sext(c, x.S.W))), true
+	case int64:
+		return lit(fmt.Sprint(x)), true
+	case float64:
+		b, err := json.Marshal(x)
+		if err != nil {
+			return nil, false
+		}
+		return lit(string(b)), true
+	case []Value:
+		out := lit("[")
+		for i, e := range x {
+			if i > 0 {
+				out = append(out, uint64(','))
+			}
+			b, ok := in.jsonEncode(fr, e)
+			if !ok {
+				return nil, false
+			}
+			out = append(out, b...)
+		}
+		return append(out, uint64(']')), true
+	case *MapV:
+		if x == nil {
+			return lit("null"), true
+		}
+		var keys []string
+		vals := map[string]Value{}
+		for i, k := range x.Keys {
+			if x.Dead[i] {
+				continue
+			}
+			ks, ok := k.(string)
+			if !ok {
+				return nil, false
+			}
+			keys = append(keys, ks)
+			vals[ks] = x.Vals[i]
+		}
+		sort.Strings(keys)
+		out := lit("{")
+		for i, k := range keys {
+			if i > 0 {
+				out = append(out, uint64(','))
+			}
+			kb, _ := json.Marshal(k)
+			out = append(out, strBytes(string(kb))...)
+			out = append(out, uint64(':'))
+			b, ok := in.jsonEncode(fr, vals[k])
+			if !ok {
+				return nil, false
+			}
+			out = append(out, b...)
+		}
+		return append(out, uint64('}')), true
+	case Struct:
+		if len(x) == 0 {
+			return lit("null"), true
 		}
 	}
 	return nil, false
